@@ -344,7 +344,7 @@ package main
 //@   modifies inferred
 //@   ensures [C06] owner_keeps_OJ: old(t.owner) == asUid && old(hasO(t.perUser[asUid].modeWant) && hasJ(t.perUser[asUid].modeWant)) ==> t.owner == asUid && (asUid in t.perUser) && hasO(t.perUser[asUid].modeWant) && hasJ(t.perUser[asUid].modeWant)
 //@   ensures [C06] owner_given_kept: old(t.owner) == asUid ==> (asUid in t.perUser) && (t.perUser[asUid].modeGiven & old(t.perUser[asUid].modeGiven)) == old(t.perUser[asUid].modeGiven)
-//@   ensures [C06] no_self_made_owner: old((asUid in t.perUser) && !t.perUser[asUid].deleted && !hasO(t.perUser[asUid].modeGiven)) ==> t.owner == old(t.owner) && ((asUid in t.perUser) ==> !hasO(t.perUser[asUid].modeGiven))
+//@   ensures [C06,C07] no_self_made_owner: old((asUid in t.perUser) && !t.perUser[asUid].deleted && !hasO(t.perUser[asUid].modeGiven)) ==> t.owner == old(t.owner) && ((asUid in t.perUser) ==> !hasO(t.perUser[asUid].modeGiven))
 //@   ensures [C06] transfer: t.owner != old(t.owner) ==> t.owner == asUid && old(hasO(t.perUser[asUid].modeGiven)) && ((asUid in t.perUser) ==> hasO(t.perUser[asUid].modeWant)) && ((old(t.owner) in t.perUser) ==> !hasO(t.perUser[old(t.owner)].modeGiven) && !hasO(t.perUser[old(t.owner)].modeWant))
 //@   ensures [C07] others_untouched: forall u types.Uid :: u != asUid && u != old(t.owner) ==> (u in t.perUser) == old(u in t.perUser) && ((u in t.perUser) ==> t.perUser[u].modeWant == old(t.perUser[u].modeWant) && t.perUser[u].modeGiven == old(t.perUser[u].modeGiven))
 //@   ensures [C07] old_owner_only_loses_O: old(t.owner) != asUid && (old(t.owner) in t.perUser) ==> (t.perUser[old(t.owner)].modeWant | types.ModeOwner) == (old(t.perUser[t.owner].modeWant) | types.ModeOwner) && (t.perUser[old(t.owner)].modeGiven | types.ModeOwner) == (old(t.perUser[t.owner].modeGiven) | types.ModeOwner)
@@ -364,7 +364,7 @@ package main
 //@   requires [C06] defaults_no_owner: !hasO(t.accessAuth) && !hasO(t.accessAnon)
 //@   modifies inferred
 //@   ensures [C06] owner_field: t.owner == old(t.owner)
-//@   ensures [C06] owner_grant_needs_owner: (target in t.perUser) && hasO(t.perUser[target].modeGiven) && !old((target in t.perUser) && hasO(t.perUser[target].modeGiven)) ==> old(t.owner) == asUid
+//@   ensures [C06,C07] owner_grant_needs_owner: (target in t.perUser) && hasO(t.perUser[target].modeGiven) && !old((target in t.perUser) && hasO(t.perUser[target].modeGiven)) ==> old(t.owner) == asUid
 //@   ensures [C06] owner_protected: old(t.owner) == target && old((target in t.perUser) && !t.perUser[target].deleted && !t.perUser[target].isChan && hasO(t.perUser[target].modeGiven) && hasJ(t.perUser[target].modeGiven)) ==> (target in t.perUser) && hasO(t.perUser[target].modeGiven) && hasJ(t.perUser[target].modeGiven)
 //@   ensures [C07] needs_sharer: !old(canShare(t, asUid)) ==> err != nil && (target in t.perUser) == old(target in t.perUser) && t.perUser[target].modeGiven == old(t.perUser[target].modeGiven) && t.perUser[target].modeWant == old(t.perUser[target].modeWant)
 //@   ensures [C07] explicit_needs_admin: old(pkt.Set.Sub.Mode) != "" && !old(isAdminOf(t, asUid)) ==> err != nil && (target in t.perUser) == old(target in t.perUser) && t.perUser[target].modeGiven == old(t.perUser[target].modeGiven) && t.perUser[target].modeWant == old(t.perUser[target].modeWant)
